@@ -1152,6 +1152,9 @@ func (g storedGen) mutate(b []byte) []byte {
 }
 
 func genStored(c *hx.Ctx) {
+	// hx seeds are consecutive SplitMix64 states (seed s+1 = seed s shifted by one draw): fork through the
+	// output function so that different seeds give unrelated streams
+	c.Rng = c.Rng.Fork()
 	g := storedGen{c.Rng}
 	// exhaustive parts: every numeric kind at every boundary value; every primitive type code
 	for _, k := range storedNumKinds {
